@@ -47,7 +47,7 @@ theorem integrate_suffix (cfg : Cfg ℚ) (s : Sys ℚ) (target : ℚ) (orc : Ora
   by_cases hc : s.crashed = true
   · simp only [hc, if_true]; exact ⟨[], rfl⟩
   · simp only [hc, Bool.false_eq_true, if_false]
-    by_cases hat : absC (target - s.tcur) < cfg.eps
+    by_cases hat : absC (target - s.tcur) < cfg.tolEps
     · simp only [hat, if_true]; exact ⟨[], rfl⟩
     · simp only [hat, if_false]
       cases hal : allocSteps (target - s.tcur) (initialDt cfg s target) with
@@ -316,7 +316,7 @@ theorem integrateEv_outcome (cfg : CfgEv ℚ) (s : Sys ℚ) (evs : List (Nat × 
   by_cases hc : s.crashed = true
   · simp [hc]
   · rw [if_neg hc]
-    by_cases hat : absC (target - s.tcur) < cfg.loop.eps
+    by_cases hat : absC (target - s.tcur) < cfg.loop.tolEps
     · simp [hat]
     · rw [if_neg hat]
       cases hal : allocSteps (target - s.tcur) (initialDt cfg.loop s target) with
@@ -343,7 +343,7 @@ theorem quiet_call_is_plain_call (cfg : CfgEv ℚ) (s : Sys ℚ) (evs : List (Na
   by_cases hc : s.crashed = true
   · simp [hc]
   · rw [if_neg hc, if_neg hc]
-    by_cases hat : absC (target - s.tcur) < cfg.loop.eps
+    by_cases hat : absC (target - s.tcur) < cfg.loop.tolEps
     · simp [hat]
     · rw [if_neg hat, if_neg hat]
       cases hal : allocSteps (target - s.tcur) (initialDt cfg.loop s target) with
